@@ -162,6 +162,26 @@ def run(rep: Report, only_params: bool = False, only_variant=None) -> None:
                         key=f"raise|{r[1].exc}|c={min(max(compact, 0), 2)}")
             continue
         _, names_in, args_in, names_out, args_out, opts, it = r
+        if variant == "merge" and not params and not clamp and not same:
+            # compiling is repeatable: an earlier compilation in the same process (with the
+            # extra outputs) leaves nothing behind that changes the next one
+            net4 = CP.build_network(prog, st, variant=variant)
+            CP.set_opaque_states(net4)
+            it4 = net4.w.interp()
+            oth = {"T": TV(E.S("T"), 0, False), "tau": TV(E.S("tau"), 0, False)}
+            ra = CP.to_function(prog, net4, compact=compact, more_out=True, other=oth, it=it4)
+            rb = CP.to_function(prog, net4, compact=compact, more_out=False, other={"T": oth["T"]}, it=it4)
+            if ra[0] == "raise" or rb[0] == "raise":
+                bad_r = ra if ra[0] == "raise" else rb
+                rep.refuted("compilation-repeatable", label, where,
+                            f"a second compilation raises {bad_r[1].exc}: {bad_r[1].msg}", key=f"repeat|raise|c={compact}")
+            else:
+                same_sig = (list(rb[1]) == list(names_in) and list(rb[3]) == list(names_out)
+                            and len(rb[2]) == len(args_in) and len(rb[4]) == len(args_out))
+                rep.check(same_sig, "compilation-repeatable", label, where,
+                          f"after a compilation with more_out the same network compiles to inputs {list(rb[1])} / "
+                          f"outputs {list(rb[3])} ({len(rb[4])} values) instead of {list(names_in)} / {list(names_out)} "
+                          f"({len(args_out)} values)", key=f"repeat|c={compact}")
         nz = M.make_normalizer(None)
         cl = min(max(compact, 0), 2)
         key = f"{st}|c={cl}|p={params}|clamp={clamp}|same={same}|{variant}"
